@@ -83,7 +83,7 @@ Lemma nth_app_left {A} (l l' : list A) k d : (k < length l)%nat -> nth k (l ++ l
 Proof. intros H. now apply app_nth1. Qed.
 
 (* ---- ids of a rung / bracket / all brackets ------------------------------------------- *)
-Definition slot := (option Z * option (option Q))%type.
+Notation slot := (option Z * option (option Q))%type.
 Definition dslot : slot := (None, None).
 Definition dbr : sbracket := new_bracket [].
 Definition sid (sl : slot) : list Z := match fst sl with Some t => [t] | None => [] end.
@@ -199,6 +199,9 @@ Proof.
   intros Hin. apply mem_Z_In in Hin. congruence.
 Qed.
 
+Global Arguments dslot : simpl never.
+Global Arguments dbr : simpl never.
+
 (* ---- the invariant of the bracket manager ---------------------------------------------- *)
 Definition pend_ids (s : sync) : list Z := map fst (s_pending s).
 Definition sync_needed (s : sync) : list Z := pend_ids s ++ all_ids (s_brs s).
@@ -280,3 +283,472 @@ Proof. intros Hk Hx. unfold all_ids. apply in_flat_map. exists (nth k brs dbr). 
 
 Lemma slot_in_sids cur pos t a : (pos < length cur)%nat -> nth pos cur dslot = (Some t, a) -> In t (sids cur).
 Proof. intros Hl E. apply sids_In. exists (Some t, a). split; [rewrite <- E; now apply nth_In|reflexivity]. Qed.
+
+(* ---- creating a bracket -------------------------------------------------------------------- *)
+Lemma all_ids_app a b : all_ids (a ++ b) = all_ids a ++ all_ids b.
+Proof. unfold all_ids. apply flat_map_app. Qed.
+
+Lemma new_bracket_ids rungs : bids (new_bracket rungs) = [].
+Proof. destruct rungs as [|[sz lv] r]; simpl; [reflexivity|]. unfold bids. simpl. apply sids_repeat_none. Qed.
+
+Lemma nth_repeat_dslot n pos : nth pos (repeat dslot n) dslot = dslot.
+Proof. revert pos. induction n; intros [|pos]; simpl; auto. Qed.
+
+Lemma new_bracket_bwf rungs : bwf (new_bracket rungs).
+Proof.
+  destruct rungs as [|[sz lv] r]; simpl; intros H; [discriminate|]. simpl. split; [lia|].
+  intros pos _. fold dslot. now rewrite nth_repeat_dslot.
+Qed.
+
+Lemma pend_ok_app brs nb e : bids nb = [] -> pend_ok brs e -> pend_ok (brs ++ [nb]) e.
+Proof.
+  intros Hnb [Hk [Hd [Hp Hs]]]. unfold pend_ok. rewrite app_length. simpl.
+  rewrite (nth_app_left brs [nb] _ dbr Hk). split; [lia|]. split; [exact Hd|]. split; [exact Hp|].
+  destruct Hs as [Hs|[Hs Hn]]; [now left|right]. split; [exact Hs|].
+  rewrite all_ids_app. replace (all_ids [nb]) with (@nil Z); [now rewrite app_nil_r|].
+  unfold all_ids. simpl. now rewrite Hnb.
+Qed.
+
+Lemma create_bracket_inv n s p : sync_inv n s ->
+  let s' := create_bracket s in
+  sync_inv n {| s_tbl := s_tbl s'; s_max := s_max s'; s_brs := s_brs s'; s_primary := p;
+                s_pending := s_pending s'; s_rem := s_rem s' |}.
+Proof.
+  intros H. simpl.
+  set (nb := new_bracket (nth (Nat.modulo (length (s_brs s)) (length (s_tbl s))) (s_tbl s) [])).
+  assert (all_ids (s_brs s ++ [nb]) = all_ids (s_brs s)) as Eids.
+  { rewrite all_ids_app. replace (all_ids [nb]) with (@nil Z); [now rewrite app_nil_r|].
+    unfold all_ids. simpl. unfold nb. now rewrite new_bracket_ids. }
+  destruct H. constructor; simpl; auto.
+  - unfold sync_needed, pend_ids in *. simpl. now rewrite Eids.
+  - now rewrite Eids.
+  - eapply Forall_impl; [|exact si_pend0]. intros e He. apply pend_ok_app; [apply new_bracket_ids|exact He].
+  - apply Forall_app. split; [exact si_bwf0|]. constructor; [apply new_bracket_bwf|constructor].
+  - unfold sync_needed, pend_ids in *. simpl. now rewrite Eids.
+Qed.
+
+(* ---- delivering a result (or NaN) for a pending trial ---------------------------------------- *)
+Lemma bids_mk cur lv fr lt dn : bids {| b_cur := cur; b_level := lv; b_free := fr; b_later := lt; b_done := dn |} = sids cur.
+Proof. reflexivity. Qed.
+
+Lemma nth_top_slot (top : list Z) pos :
+  snd (nth pos (map (fun t : Z => (Some t, @None (option Q))) top) dslot) = None.
+Proof. revert pos. induction top as [|x top IH]; intros [|pos]; simpl; auto. Qed.
+
+Lemma deliver_inv n s i k pos m : sync_inv n s -> In (i, (k, pos)) (s_pending s) ->
+  let s' := sync_deliver s i k pos m in
+  sync_inv n s' /\ incl (sync_needed s') (sync_needed s) /\
+  (forall x, In x (pend_ids s) -> x <> i -> In x (pend_ids s')).
+Proof.
+  intros HI Hin.
+  pose proof HI as [H0 Htbl Hbound Hnd Hpnd Hpend Hslots Hbwf Hrem].
+  set (brs := s_brs s) in *. set (b := nth k brs dbr) in *. set (cur := b_cur b) in *.
+  set (sl := (Some i, Some m) : slot). set (cur' := upd_nth cur pos sl).
+  (* the pending entry *)
+  pose proof (proj1 (Forall_forall _ _) Hpend _ Hin) as [Hk [Hbd [Hpf Hslot]]]. simpl in Hk, Hbd, Hpf, Hslot.
+  fold brs in Hk, Hbd, Hpf, Hslot. fold b in Hbd, Hpf, Hslot. fold cur in Hslot.
+  assert (bwf b) as Hb by (apply (proj1 (Forall_forall _ _) Hbwf); apply nth_In; exact Hk).
+  destruct (Hb Hbd) as [Hfl Hun]. fold cur in Hfl, Hun.
+  assert (pos < length cur)%nat as Hpl by lia.
+  (* contexts *)
+  destruct (flat_map_upd_nth sid cur pos dslot Hpl) as [P [Q [HPQ1 [HPQ2 HPQ3]]]].
+  destruct (flat_map_upd_nth bids brs k dbr Hk) as [A [C [HAC1 [HAC2 HAC3]]]].
+  fold (sids cur) in HPQ2. fold (all_ids brs) in HAC2. fold b in HAC2.
+  assert (sids cur' = P ++ i :: Q) as EX' by (unfold cur', sids; rewrite HPQ1; reflexivity).
+  assert (NoDup (A ++ sids cur' ++ C) /\ incl (sids cur') (i :: sids cur)) as [HND' HXi].
+  { rewrite EX'. destruct Hslot as [Hs|[Hs Hni]]; rewrite Hs in HPQ2; simpl in HPQ2.
+    - split; [|intros x Hx; right; rewrite HPQ2; exact Hx].
+      replace (P ++ i :: Q) with (sids cur) by exact HPQ2. unfold bids in HAC2. fold cur in HAC2. rewrite <- HAC2. exact Hnd.
+    - split.
+      + apply NoDup_mid_insert; unfold bids in HAC2; fold cur in HAC2; rewrite HPQ2 in HAC2; rewrite <- HAC2; assumption.
+      + intros x Hx. apply in_app_or in Hx as [Hx|[<-|Hx]]; [right|now left|right]; rewrite HPQ2; apply in_or_app; tauto. }
+  assert (incl (sids cur) (all_ids brs)) as Hcur_all by (intros x Hx; apply (bids_in_all brs k x Hk Hx)).
+  assert (In i (pend_ids s)) as Hip by (apply in_map_iff; exists (i, (k, pos)); auto).
+  (* no other pending job in bracket k once all slots have a result *)
+  assert (all_occupied cur' = true -> forall t p2, In (t, (k, p2)) (s_pending s) -> t = i) as HnoK.
+  { intros Hocc t p2 Ht. destruct (Z.eq_dec t i) as [->|Hne]; [reflexivity|exfalso].
+    assert (p2 <> pos) as Hp2 by (intros ->; apply Hne; exact (Hslots _ _ _ _ Ht Hin)).
+    pose proof (proj1 (Forall_forall _ _) Hpend _ Ht) as [_ [_ [Hpf2 Hs2]]]. simpl in Hpf2, Hs2.
+    fold brs in Hpf2, Hs2. fold b in Hpf2, Hs2. fold cur in Hs2.
+    apply (all_occupied_nth cur' p2 Hocc); [unfold cur'; rewrite upd_nth_length; lia|].
+    unfold cur'. rewrite nth_upd_nth_neq; [|congruence]. destruct Hs2 as [Hs2|[Hs2 _]]; now rewrite Hs2. }
+  (* generic reconstruction of the invariant for a new bracket b' and a new list of removable trials *)
+  assert (forall b' L p,
+            incl (bids b') (sids cur') -> NoDup (bids b') -> bwf b' ->
+            (forall t p2, In (t, (k, p2)) (s_pending s) -> t <> i ->
+               b_done b' = false /\ (p2 < b_free b')%nat /\ nth p2 (b_cur b') dslot = nth p2 cur dslot) ->
+            (forall x, In x L -> In x (sids cur') /\ ~ In x (bids b') /\ (x <> i -> ~ In x (pend_ids s))) ->
+            let s1 := {| s_tbl := s_tbl s; s_max := s_max s; s_brs := upd_nth brs k b'; s_primary := p;
+                         s_pending := remove_pending (s_pending s) i; s_rem := s_rem s ++ L |} in
+            sync_inv n s1 /\ incl (sync_needed s1) (sync_needed s) /\
+            (forall x, In x (pend_ids s) -> x <> i -> In x (pend_ids s1))) as K.
+  { intros b' L p Hb'i Hb'n Hb'w Hb'p HL s1.
+    assert (all_ids (upd_nth brs k b') = A ++ bids b' ++ C) as Eall by apply HAC1.
+    assert (incl (all_ids (upd_nth brs k b')) (i :: all_ids brs)) as Hall_i.
+    { rewrite Eall, HAC2. intros x Hx. apply in_app_or in Hx as [Hx|Hx]; [right; apply in_or_app; now left|].
+      apply in_app_or in Hx as [Hx|Hx]; [|right; apply in_or_app; right; apply in_or_app; now right].
+      apply Hb'i, HXi in Hx. destruct Hx as [<-|Hx]; [now left|right]. apply in_or_app. right. apply in_or_app. left. exact Hx. }
+    assert (incl (sync_needed s1) (sync_needed s)) as Hneed.
+    { unfold sync_needed, pend_ids. simpl. intros x Hx. apply in_app_or in Hx as [Hx|Hx].
+      - apply remove_pending_ids in Hx. apply in_or_app. left. tauto.
+      - apply Hall_i in Hx. destruct Hx as [<-|Hx]; apply in_or_app; [left; exact Hip | now right]. }
+    split; [|split; [exact Hneed|]].
+    2:{ intros x Hx Hn. unfold pend_ids. simpl. apply remove_pending_ids. auto. }
+    constructor; simpl; auto.
+    - (* bounds *)
+      intros x Hx. apply in_app_or in Hx as [Hx|Hx]; [apply Hbound; apply in_or_app; left; now apply Hneed|].
+      apply in_app_or in Hx as [Hx|Hx]; [apply Hbound; apply in_or_app; now right|].
+      destruct (HL x Hx) as [Hx1 _]. apply HXi in Hx1. apply Hbound. apply in_or_app. left. unfold sync_needed.
+      destruct Hx1 as [<-|Hx1]; apply in_or_app; [left; exact Hip | right; now apply Hcur_all].
+    - (* NoDup of all ids *)
+      rewrite Eall. eapply NoDup_mid_sub; eauto.
+    - now apply remove_pending_NoDup.
+    - (* pending jobs *)
+      apply Forall_forall. intros [t [k2 p2]] He. apply remove_pending_In in He as [He Hne]. simpl in Hne.
+      pose proof (proj1 (Forall_forall _ _) Hpend _ He) as [Hk2 [Hd2 [Hp2 Hs2]]]. simpl in Hk2, Hd2, Hp2, Hs2.
+      unfold pend_ok. simpl. rewrite upd_nth_length. split; [exact Hk2|].
+      destruct (Nat.eq_dec k2 k) as [->|Hkk].
+      + rewrite nth_upd_nth_eq; [|exact Hk]. destruct (Hb'p t p2 He Hne) as [B1 [B2 B3]].
+        split; [exact B1|]. split; [exact B2|]. rewrite B3. fold brs b cur in Hs2.
+        destruct Hs2 as [Hs2|[Hs2 Hn2]]; [now left|right]. split; [exact Hs2|].
+        intros Hx. apply Hall_i in Hx. destruct Hx as [Hx|Hx]; [congruence|exact (Hn2 Hx)].
+      + rewrite nth_upd_nth_neq; [|congruence]. split; [exact Hd2|]. split; [exact Hp2|].
+        destruct Hs2 as [Hs2|[Hs2 Hn2]]; [now left|right]. split; [exact Hs2|].
+        intros Hx. apply Hall_i in Hx. destruct Hx as [Hx|Hx]; [congruence|exact (Hn2 Hx)].
+    - intros t t' k2 p2 H1 H2. apply remove_pending_In in H1 as [H1 _]. apply remove_pending_In in H2 as [H2 _]. eauto.
+    - now apply Forall_upd_nth.
+    - (* removable trials are not needed any more *)
+      intros x Hx Hnx. apply in_app_or in Hx as [Hx|Hx]; [exact (Hrem x Hx (Hneed x Hnx))|].
+      destruct (HL x Hx) as [Hx1 [Hx2 Hx3]]. unfold sync_needed, pend_ids in Hnx. simpl in Hnx.
+      apply in_app_or in Hnx as [Hnx|Hnx].
+      + apply remove_pending_ids in Hnx as [Hnx Hne]. exact (Hx3 Hne Hnx).
+      + rewrite Eall in Hnx. apply NoDup_app_iff in HND' as [_ [HND2 HAx]]. apply NoDup_app_iff in HND2 as [_ [_ HxC]].
+        apply in_app_or in Hnx as [Hnx|Hnx]; [apply (HAx x Hnx); apply in_or_app; now left|].
+        apply in_app_or in Hnx as [Hnx|Hnx]; [contradiction | exact (HxC x Hx1 Hnx)]. }
+  (* the three cases of SynchronousBracket.on_result *)
+  cbv zeta. unfold sync_deliver, bracket_on_result. change (new_bracket []) with dbr. fold brs. fold b. fold cur. fold sl. fold cur'.
+  assert (forall s1, sync_inv n s1 ->
+            forall cnd p', sync_inv n (if cnd : bool then
+               let s2 := create_bracket s1 in
+               {| s_tbl := s_tbl s2; s_max := s_max s2; s_brs := s_brs s2; s_primary := p';
+                  s_pending := s_pending s2; s_rem := s_rem s2 |} else s1)) as Kc.
+  { intros s1 H1 cnd p'. destruct cnd; [now apply create_bracket_inv|exact H1]. }
+  assert (NoDup (sids cur')) as HNDc.
+  { apply NoDup_app_iff in HND' as [_ [H2 _]]. now apply NoDup_app_iff in H2 as [H2 _]. }
+  destruct (Nat.leb (length cur') (b_free b) && all_occupied cur') eqn:Ecmp.
+  - apply andb_true_iff in Ecmp as [_ Hocc].
+    destruct (b_later b) as [|[sz lv] later] eqn:El.
+    + (* last rung: the bracket is complete *)
+      cbv beta iota zeta.
+      match goal with |- context [upd_nth brs k ?bb] => set (b' := bb) end.
+      destruct (K b' [] (if Nat.eqb k (s_primary s) then advance_primary (upd_nth brs k b') (s_primary s) (length (upd_nth brs k b')) else s_primary s))
+        as [K1 [K2 K3]].
+      * unfold b'. rewrite bids_mk. apply incl_refl.
+      * unfold b'. rewrite bids_mk. exact HNDc.
+      * unfold b', bwf. simpl. discriminate.
+      * intros t p2 Ht Hne. exfalso. apply Hne. exact (HnoK Hocc t p2 Ht).
+      * intros x [].
+      * simpl in *. rewrite app_nil_r in *.
+        match goal with |- context [if ?cnd then _ else _] => destruct cnd end.
+        -- split; [|split].
+           ++ apply (create_bracket_inv n _ _ K1).
+           ++ simpl. unfold sync_needed, pend_ids in *. simpl in *. rewrite all_ids_app.
+              replace (all_ids [new_bracket _]) with (@nil Z) by (unfold all_ids; simpl; now rewrite new_bracket_ids).
+              now rewrite app_nil_r.
+           ++ exact K3.
+        -- auto.
+    + (* rung complete: promote the top list, the rest can be removed *)
+      cbv beta iota zeta.
+      set (rung := occupied cur'). set (top := top_list (s_max s) rung sz).
+      match goal with |- context [upd_nth brs k ?bb] => set (b' := bb) end.
+      assert (incl top (sids cur')) as Htop.
+      { intros x Hx. apply top_list_incl in Hx. now apply occupied_ids_incl. }
+      destruct (K b' (remaining_list rung top)
+                  (if Nat.eqb k (s_primary s) then advance_primary (upd_nth brs k b') (s_primary s) (length (upd_nth brs k b')) else s_primary s))
+        as [K1 [K2 K3]].
+      * unfold b'. rewrite bids_mk, sids_top. exact Htop.
+      * unfold b'. rewrite bids_mk, sids_top. apply top_list_NoDup. now apply occupied_NoDup.
+      * unfold b', bwf. simpl. intros _. split; [lia|]. intros p _. apply nth_top_slot.
+      * intros t p2 Ht Hne. exfalso. apply Hne. exact (HnoK Hocc t p2 Ht).
+      * intros x Hx. apply remaining_list_spec in Hx as [Hx1 Hx2]. split; [now apply occupied_ids_incl|].
+        split; [unfold b'; now rewrite bids_mk, sids_top|].
+        intros Hne Hxp. apply in_map_iff in Hxp as [[t [k2 p2]] [Ht1 Ht2]]. simpl in Ht1. subst t.
+        pose proof (proj1 (Forall_forall _ _) Hpend _ Ht2) as [Hk2 [_ [_ Hs2]]]. simpl in Hk2, Hs2. fold brs in Hk2, Hs2.
+        assert (In x (sids cur)) as Hxc.
+        { apply occupied_ids_incl, HXi in Hx1. destruct Hx1 as [Hx1|Hx1]; [congruence|exact Hx1]. }
+        destruct Hs2 as [Hs2|[_ Hn2]]; [|apply Hn2; now apply Hcur_all].
+        destruct (Nat.eq_dec k2 k) as [->|Hkk]; [apply Hne; exact (HnoK Hocc x p2 Ht2)|].
+        (* x would occur in two different brackets *)
+        assert (In x (bids (nth k2 brs dbr))) as Hx2'.
+        { pose proof (proj1 (Forall_forall _ _) Hpend _ Ht2) as [_ [Hd2 [Hp2 _]]]. simpl in Hd2, Hp2. fold brs in Hd2, Hp2.
+          assert (bwf (nth k2 brs dbr)) as Hb2 by (apply (proj1 (Forall_forall _ _) Hbwf); now apply nth_In).
+          destruct (Hb2 Hd2) as [Hfl2 _]. apply (slot_in_sids _ p2 x None); [lia|exact Hs2]. }
+        apply (HAC3 k2 Hkk Hk2) in Hx2'. rewrite HAC2 in Hnd. unfold bids in Hnd at 1. fold cur in Hnd.
+        apply NoDup_app_iff in Hnd as [_ [Hn2 HAx]]. apply NoDup_app_iff in Hn2 as [_ [_ HxC]].
+        apply in_app_or in Hx2' as [Hx2'|Hx2']; [apply (HAx x Hx2'); apply in_or_app; now left | exact (HxC x Hxc Hx2')].
+      * simpl in *.
+        match goal with |- context [if ?cnd then _ else _] => destruct cnd end.
+        -- split; [|split].
+           ++ apply (create_bracket_inv n _ _ K1).
+           ++ simpl. unfold sync_needed, pend_ids in *. simpl in *. rewrite all_ids_app.
+              replace (all_ids [new_bracket _]) with (@nil Z) by (unfold all_ids; simpl; now rewrite new_bracket_ids).
+              now rewrite app_nil_r.
+           ++ exact K3.
+        -- auto.
+  - (* the rung is not complete yet *)
+    cbv beta iota zeta.
+    match goal with |- context [upd_nth brs k ?bb] => set (b' := bb) end.
+    destruct (K b' [] (if Nat.eqb k (s_primary s) then advance_primary (upd_nth brs k b') (s_primary s) (length (upd_nth brs k b')) else s_primary s))
+      as [K1 [K2 K3]].
+    * unfold b'. rewrite bids_mk. apply incl_refl.
+    * unfold b'. rewrite bids_mk. exact HNDc.
+    * unfold b', bwf. simpl. intros _. unfold cur'. rewrite upd_nth_length. split; [exact Hfl|].
+      intros p Hp. rewrite nth_upd_nth_neq; [now apply Hun|lia].
+    * intros t p2 Ht Hne. unfold b'. simpl.
+      pose proof (proj1 (Forall_forall _ _) Hpend _ Ht) as [_ [_ [Hp2 _]]]. simpl in Hp2. fold brs b in Hp2.
+      split; [exact Hbd|]. split; [exact Hp2|]. unfold cur'. apply nth_upd_nth_neq.
+      intros ->. apply Hne. exact (Hslots _ _ _ _ Ht Hin).
+    * intros x [].
+    * simpl in *. rewrite app_nil_r in *.
+      match goal with |- context [if ?cnd then _ else _] => destruct cnd end.
+      -- split; [|split].
+         ++ apply (create_bracket_inv n _ _ K1).
+         ++ simpl. unfold sync_needed, pend_ids in *. simpl in *. rewrite all_ids_app.
+            replace (all_ids [new_bracket _]) with (@nil Z) by (unfold all_ids; simpl; now rewrite new_bracket_ids).
+            now rewrite app_nil_r.
+         ++ exact K3.
+      -- auto.
+Qed.
+
+(* ---- handing out a slot (next_job) and registering the job ------------------------------------ *)
+Lemma next_free_slot_spec b b' pos tid : next_free_slot b = Some (b', pos, tid) ->
+  b_done b = false /\ (b_free b < length (b_cur b))%nat /\ pos = b_free b /\
+  tid = fst (nth pos (b_cur b) dslot) /\
+  b' = {| b_cur := b_cur b; b_level := b_level b; b_free := Datatypes.S (b_free b); b_later := b_later b; b_done := b_done b |}.
+Proof.
+  unfold next_free_slot. destruct (b_done b); [discriminate|].
+  destruct (Nat.leb (length (b_cur b)) (b_free b)) eqn:E; [discriminate|].
+  apply Nat.leb_gt in E. intros H. injection H as <- <- <-. repeat split; auto.
+Qed.
+
+Lemma find_slot_spec : forall brs k0 from k b' pos tid, find_slot brs k0 from = Some (k, b', pos, tid) ->
+  (k0 <= k)%nat /\ (k - k0 < length brs)%nat /\ next_free_slot (nth (k - k0) brs dbr) = Some (b', pos, tid).
+Proof.
+  induction brs as [|b brs IH]; intros k0 from k b' pos tid; simpl; [discriminate|].
+  assert (forall H : find_slot brs (Datatypes.S k0) from = Some (k, b', pos, tid),
+            (k0 <= k)%nat /\ (k - k0 < Datatypes.S (length brs))%nat /\
+            next_free_slot (nth (k - k0) (b :: brs) dbr) = Some (b', pos, tid)) as K.
+  { intros H. destruct (IH _ _ _ _ _ _ H) as [H1 [H2 H3]]. split; [lia|]. split; [lia|].
+    replace (k - k0)%nat with (Datatypes.S (k - Datatypes.S k0)) by lia. exact H3. }
+  destruct (Nat.ltb k0 from); [exact K|].
+  destruct (next_free_slot b) as [[[b1 p1] t1]|] eqn:E; [|exact K].
+  intros H. injection H as <- <- <- <-. rewrite Nat.sub_diag. simpl. split; [lia|]. split; [lia|exact E].
+Qed.
+
+Lemma register_inv n s k b' pos tid p : sync_inv n s -> (k < length (s_brs s))%nat ->
+  next_free_slot (nth k (s_brs s) dbr) = Some (b', pos, tid) ->
+  match tid with
+  | Some t =>
+      let s2 := {| s_tbl := s_tbl s; s_max := s_max s; s_brs := upd_nth (s_brs s) k b'; s_primary := p;
+                   s_pending := (t, (k, pos)) :: s_pending s; s_rem := s_rem s |} in
+      sync_inv n s2 /\ incl (sync_needed s2) (sync_needed s) /\ In t (sync_needed s) /\
+      incl (t :: pend_ids s) (pend_ids s2)
+  | None =>
+      let s2 := {| s_tbl := s_tbl s; s_max := s_max s; s_brs := upd_nth (s_brs s) k b'; s_primary := p;
+                   s_pending := (n, (k, pos)) :: s_pending s; s_rem := s_rem s |} in
+      sync_inv (n + 1)%Z s2 /\ incl (sync_needed s2) (n :: sync_needed s) /\ incl (n :: pend_ids s) (pend_ids s2)
+  end.
+Proof.
+  intros HI Hk Hnf.
+  pose proof HI as [H0 Htbl Hbound Hnd Hpnd Hpend Hslots Hbwf Hrem].
+  set (brs := s_brs s) in *. set (b := nth k brs dbr) in *. set (cur := b_cur b) in *.
+  destruct (next_free_slot_spec _ _ _ _ Hnf) as [Hbd [Hlt [-> [-> ->]]]]. fold cur.
+  assert (bwf b) as Hb by (apply (proj1 (Forall_forall _ _) Hbwf); apply nth_In; exact Hk).
+  destruct (Hb Hbd) as [Hfl Hun]. fold cur in Hfl, Hun, Hlt.
+  set (pos := b_free b) in *.
+  set (b' := {| b_cur := cur; b_level := b_level b; b_free := Datatypes.S pos; b_later := b_later b; b_done := b_done b |}).
+  destruct (flat_map_upd_nth bids brs k dbr Hk) as [A [C [HAC1 [HAC2 HAC3]]]].
+  fold (all_ids brs) in HAC2. fold b in HAC2.
+  assert (all_ids (upd_nth brs k b') = all_ids brs) as Eall.
+  { unfold all_ids at 1. rewrite HAC1, HAC2. reflexivity. }
+  assert (snd (nth pos cur dslot) = None) as Hsnd by (apply Hun; lia).
+  assert (nth pos cur dslot = (fst (nth pos cur dslot), None)) as Hnth.
+  { rewrite <- Hsnd. now destruct (nth pos cur dslot). }
+  assert (bwf b') as Hb'.
+  { unfold b', bwf. simpl. intros _. split; [lia|]. intros q Hq. apply Hun. lia. }
+  (* old pending jobs stay well-formed *)
+  assert (forall e, In e (s_pending s) -> pend_ok (upd_nth brs k b') e) as Hold.
+  { intros [t [k2 p2]] He. pose proof (proj1 (Forall_forall _ _) Hpend _ He) as [Hk2 [Hd2 [Hp2 Hs2]]].
+    simpl in Hk2, Hd2, Hp2, Hs2. unfold pend_ok. simpl. rewrite upd_nth_length, Eall. split; [exact Hk2|].
+    destruct (Nat.eq_dec k2 k) as [->|Hkk].
+    - rewrite nth_upd_nth_eq; [|exact Hk]. unfold b'. simpl. fold brs b in Hd2, Hp2, Hs2. fold cur in Hs2. fold pos in Hp2.
+      split; [exact Hd2|]. split; [lia|exact Hs2].
+    - rewrite nth_upd_nth_neq; [|congruence]. auto. }
+  assert (forall t', ~ In (t', (k, pos)) (s_pending s)) as Hfresh_slot.
+  { intros t' Ht'. pose proof (proj1 (Forall_forall _ _) Hpend _ Ht') as [_ [_ [Hp2 _]]]. simpl in Hp2.
+    fold brs b in Hp2. fold pos in Hp2. lia. }
+  assert (forall t t' k2 p2 e0, fst (snd e0) = k -> snd (snd e0) = pos ->
+            In (t, (k2, p2)) (e0 :: s_pending s) -> In (t', (k2, p2)) (e0 :: s_pending s) -> t = t') as Hsl.
+  { intros t t' k2 p2 [t0 [k0 p0]] Ek Ep [H1|H1] [H2|H2]; simpl in Ek, Ep; subst.
+    - congruence.
+    - injection H1 as -> -> ->. exfalso. exact (Hfresh_slot _ H2).
+    - injection H2 as -> -> ->. exfalso. exact (Hfresh_slot _ H1).
+    - eauto. }
+  destruct (fst (nth pos cur dslot)) as [t|] eqn:Etid.
+  - (* a promoted trial is resumed *)
+    assert (In t (sids cur)) as Htc by (apply (slot_in_sids cur pos t None); [lia|exact Hnth]).
+    assert (In t (all_ids brs)) as Hta by (apply (bids_in_all brs k t Hk); exact Htc).
+    assert (~ In t (pend_ids s)) as Htp.
+    { intros Hin. apply in_map_iff in Hin as [[t1 [k2 p2]] [Ht1 Ht2]]. simpl in Ht1. subst t1.
+      pose proof (proj1 (Forall_forall _ _) Hpend _ Ht2) as [Hk2 [Hd2 [Hp2 Hs2]]]. simpl in Hk2, Hd2, Hp2, Hs2.
+      fold brs in Hk2, Hd2, Hp2, Hs2.
+      destruct Hs2 as [Hs2|[_ Hn2]]; [|exact (Hn2 Hta)].
+      rewrite HAC2 in Hnd. unfold bids in Hnd at 1. fold cur in Hnd.
+      apply NoDup_app_iff in Hnd as [_ [Hn2 HAx]]. apply NoDup_app_iff in Hn2 as [Hnc [_ HxC]].
+      destruct (Nat.eq_dec k2 k) as [->|Hkk].
+      - fold b in Hp2, Hs2. fold cur in Hs2. fold pos in Hp2.
+        destruct (flat_map_upd_nth sid cur pos dslot Hlt) as [P [Q [_ [HPQ2 HPQ3]]]].
+        fold (sids cur) in HPQ2. rewrite Hnth in HPQ2. simpl in HPQ2.
+        assert (In t (P ++ Q)) as HtPQ.
+        { apply (HPQ3 p2); [lia|lia|]. rewrite Hs2. simpl. now left. }
+        rewrite HPQ2 in Hnc. apply NoDup_remove_2 in Hnc. exact (Hnc HtPQ).
+      - assert (bwf (nth k2 brs dbr)) as Hb2 by (apply (proj1 (Forall_forall _ _) Hbwf); now apply nth_In).
+        destruct (Hb2 Hd2) as [Hfl2 _].
+        assert (In t (bids (nth k2 brs dbr))) as Ht2' by (apply (slot_in_sids _ p2 t None); [lia|exact Hs2]).
+        apply (HAC3 k2 Hkk Hk2) in Ht2'.
+        apply in_app_or in Ht2' as [Ht2'|Ht2']; [apply (HAx t Ht2'); apply in_or_app; now left | exact (HxC t Htc Ht2')]. }
+    simpl. split; [|split; [|split]].
+    + constructor; simpl; auto.
+      * intros x Hx. apply Hbound. unfold sync_needed, pend_ids in *. simpl in Hx. rewrite Eall in Hx.
+        destruct Hx as [<-|Hx]; [apply in_or_app; left; apply in_or_app; now right | exact Hx].
+      * now rewrite Eall.
+      * constructor; assumption.
+      * constructor; [|apply Forall_forall; exact Hold].
+        unfold pend_ok. simpl. rewrite upd_nth_length, nth_upd_nth_eq; [|exact Hk]. unfold b'. simpl.
+        split; [exact Hk|]. split; [exact Hbd|]. split; [lia|left; exact Hnth].
+      * intros t1 t2 k2 p2. apply (Hsl t1 t2 k2 p2 (t, (k, pos))); reflexivity.
+      * now apply Forall_upd_nth.
+      * intros x Hx Hnx. apply (Hrem x Hx). unfold sync_needed, pend_ids in *. simpl in Hnx. rewrite Eall in Hnx.
+        destruct Hnx as [<-|Hnx]; [apply in_or_app; now right | exact Hnx].
+    + unfold sync_needed, pend_ids. simpl. rewrite Eall. intros x [<-|Hx]; [apply in_or_app; now right | exact Hx].
+    + unfold sync_needed. apply in_or_app. now right.
+    + unfold pend_ids. simpl. apply incl_refl.
+  - (* a new trial (id n) gets the slot *)
+    assert (~ In n (sync_needed s ++ s_rem s)) as Hn by (intros Hin; apply Hbound in Hin; lia).
+    simpl. split; [|split].
+    + constructor; simpl; auto; try lia.
+      * intros x Hx. unfold sync_needed, pend_ids in *. simpl in Hx. rewrite Eall in Hx.
+        destruct Hx as [<-|Hx]; [lia|]. specialize (Hbound x Hx). lia.
+      * now rewrite Eall.
+      * constructor; [|exact Hpnd]. intros Hin. apply Hn. apply in_or_app. left. apply in_or_app. now left.
+      * constructor; [|apply Forall_forall; exact Hold].
+        unfold pend_ok. simpl. rewrite upd_nth_length, nth_upd_nth_eq, Eall; [|exact Hk]. unfold b'. simpl.
+        split; [exact Hk|]. split; [exact Hbd|]. split; [lia|right]. split; [exact Hnth|].
+        intros Hin. apply Hn. apply in_or_app. left. apply in_or_app. now right.
+      * intros t1 t2 k2 p2. apply (Hsl t1 t2 k2 p2 (n, (k, pos))); reflexivity.
+      * now apply Forall_upd_nth.
+      * intros x Hx Hnx. unfold sync_needed, pend_ids in *. simpl in Hnx. rewrite Eall in Hnx.
+        destruct Hnx as [<-|Hnx]; [apply Hn; apply in_or_app; now right | exact (Hrem x Hx Hnx)].
+    + unfold sync_needed, pend_ids. simpl. rewrite Eall. intros x [<-|Hx]; [now left | now right].
+    + unfold pend_ids. simpl. apply incl_refl.
+Qed.
+
+(* ---- sync_sched satisfies the interface of the resume theorem --------------------------------- *)
+Lemma sync_H_res : forall n s i r s' d cl, sync_inv n s -> In i (pend_ids s) ->
+  on_result sync_sched s i r = (s', d, cl) ->
+  sync_inv n s' /\ incl (sync_needed s') (sync_needed s) /\ (d = STOP -> ~ In i (sync_needed s')) /\
+  (forall j, cl = Some j -> In j (sync_needed s)) /\
+  (forall x, In x (pend_ids s) -> x <> i \/ d = CONTINUE -> In x (pend_ids s')).
+Proof.
+  intros n s i r s' d cl HI Hip E. simpl in E. unfold sync_on_result in E.
+  destruct (pending_of (s_pending s) i) as [[k pos]|] eqn:Ep.
+  2:{ exfalso. exact (pending_of_None _ _ Ep Hip). }
+  apply pending_of_In in Ep.
+  destruct (Z.leb _ _).
+  - injection E as <- <- <-. destruct (deliver_inv n s i k pos (Some (fst r)) HI Ep) as [A [B C]].
+    split; [exact A|]. split; [exact B|]. split; [discriminate|]. split; [discriminate|].
+    intros x Hx [Hn|Hn]; [now apply C | discriminate].
+  - injection E as <- <- <-. split; [exact HI|]. split; [apply incl_refl|]. split; [discriminate|]. split; [discriminate|auto].
+Qed.
+
+Lemma sync_H_err : forall n s i, sync_inv n s ->
+  sync_inv n (on_error sync_sched s i) /\ incl (sync_needed (on_error sync_sched s i)) (sync_needed s) /\
+  (forall x, In x (pend_ids s) -> x <> i -> In x (pend_ids (on_error sync_sched s i))).
+Proof.
+  intros n s i HI. simpl. unfold sync_on_error.
+  destruct (pending_of (s_pending s) i) as [[k pos]|] eqn:Ep.
+  - apply pending_of_In in Ep. exact (deliver_inv n s i k pos None HI Ep).
+  - split; [exact HI|]. split; [apply incl_refl|auto].
+Qed.
+
+Lemma sync_H_rem : forall n s s' l, sync_inv n s -> removables sync_sched s = (s', l) ->
+  sync_inv n s' /\ incl (sync_needed s') (sync_needed s) /\ incl (pend_ids s) (pend_ids s') /\
+  forall i, In i l -> ~ In i (sync_needed s') /\ (0 <= i < n)%Z.
+Proof.
+  intros n s s' l HI E. simpl in E. unfold sync_removables in E. injection E as <- <-.
+  pose proof HI as [H0 Htbl Hbound Hnd Hpnd Hpend Hslots Hbwf Hrem].
+  split; [|split; [apply incl_refl|split; [apply incl_refl|]]].
+  - constructor; simpl; auto; try (intros x []).
+    intros x Hx. apply Hbound. rewrite app_nil_r in Hx. apply in_or_app. now left.
+  - intros i Hi. split; [exact (Hrem i Hi)|]. apply Hbound. apply in_or_app. now right.
+Qed.
+
+Lemma create_bracket_same s : sync_needed (create_bracket s) = sync_needed s /\ pend_ids (create_bracket s) = pend_ids s.
+Proof.
+  unfold sync_needed, pend_ids. simpl. rewrite all_ids_app.
+  replace (all_ids [new_bracket _]) with (@nil Z) by (unfold all_ids; simpl; now rewrite new_bracket_ids).
+  now rewrite app_nil_r.
+Qed.
+
+Lemma sync_H_sug : forall n s g s' sg, sync_inv n s -> suggest sync_sched s n g = (s', sg) ->
+  match sg with
+  | SNone => sync_inv n s' /\ incl (sync_needed s') (sync_needed s) /\ incl (pend_ids s) (pend_ids s')
+  | SNew => sync_inv (n + 1)%Z s' /\ incl (sync_needed s') (n :: sync_needed s) /\ incl (n :: pend_ids s) (pend_ids s')
+  | SFrom j => sync_inv (n + 1)%Z s' /\ incl (sync_needed s') (n :: sync_needed s) /\ incl (n :: pend_ids s) (pend_ids s') /\
+               (true = true -> In j (sync_needed s))
+  | SResume i => sync_inv n s' /\ incl (sync_needed s') (sync_needed s) /\ incl (i :: pend_ids s) (pend_ids s') /\
+                 In i (sync_needed s)
+  end.
+Proof.
+  intros n s g s' sg HI E. simpl in E. unfold sync_suggest, next_job in E. change (new_bracket []) with dbr in E.
+  destruct (find_slot (s_brs s) 0 (s_primary s)) as [[[[k b'] pos] tid]|] eqn:Ef.
+  - destruct (find_slot_spec _ _ _ _ _ _ _ Ef) as [_ [Hk Hnf]]. rewrite Nat.sub_0_r in Hk, Hnf.
+    pose proof (register_inv n s k b' pos tid (s_primary s) HI Hk Hnf) as HR.
+    destruct tid as [t|]; simpl in E; injection E as <- <-.
+    + destruct HR as [A [B [C Dd]]]. auto.
+    + exact HR.
+  - (* all active brackets are busy: a new bracket is created *)
+    pose proof (create_bracket_inv n s (s_primary s) HI) as HI1.
+    destruct (create_bracket_same s) as [En Ep].
+    set (s1 := create_bracket s) in *.
+    assert (length (s_brs s) < length (s_brs s1))%nat as Hk by (unfold s1; simpl; rewrite app_length; simpl; lia).
+    pose proof HI as [_ [Htn Htf] _ _ _ _ _ _ _].
+    assert (exists sz lv r, nth (length (s_brs s)) (s_brs s1) dbr = new_bracket ((Datatypes.S sz, lv) :: r)) as [sz [lv [r Enb]]].
+    { unfold s1. simpl. rewrite app_nth2; [|lia]. rewrite Nat.sub_diag. simpl.
+      assert (In (nth (Nat.modulo (length (s_brs s)) (length (s_tbl s))) (s_tbl s) []) (s_tbl s)) as Hin.
+      { apply nth_In. apply Nat.mod_upper_bound. destruct (s_tbl s); [congruence|discriminate]. }
+      rewrite Forall_forall in Htf. destruct (Htf _ Hin) as [sz [lv [r ->]]]. now exists sz, lv, r. }
+    rewrite Enb in E.
+    assert (next_free_slot (nth (length (s_brs s)) (s_brs s1) dbr) =
+            Some ({| b_cur := repeat (None, None) (Datatypes.S sz); b_level := lv; b_free := 1; b_later := r; b_done := false |}, 0%nat, None)) as Hnf.
+    { rewrite Enb. reflexivity. }
+    cbn [new_bracket next_free_slot b_done b_cur b_free b_level b_later length repeat Nat.leb nth fst] in E.
+    pose proof (register_inv n s1 _ _ _ _ (s_primary s1) HI1 Hk Hnf) as HR. simpl in HR.
+    simpl in E. injection E as <- <-. rewrite <- En, <- Ep. exact HR.
+Qed.
+
+Lemma sync0_inv tbl mx : tbl_ok tbl -> sync_inv 0%Z (sync0 tbl mx).
+Proof.
+  intros Ht. unfold sync0.
+  apply (create_bracket_inv 0%Z {| s_tbl := tbl; s_max := mx; s_brs := []; s_primary := 0; s_pending := []; s_rem := [] |} 0%nat).
+  constructor; simpl; auto; try lia; try constructor; try tauto.
+Qed.
+
+Theorem sync_resume_has_checkpoint : forall c tbl mx its pre i post, tbl_ok tbl -> speculative c = false ->
+  run sync_sched c (init (sync0 tbl mx)) its = pre ++ EResume i :: post ->
+  forall w, ~ In (EDelete i w) pre.
+Proof.
+  intros c tbl mx its pre i post Ht Hs E.
+  exact (resume_has_checkpoint sync_sched c Hs true sync_needed pend_ids sync_inv sync_H_res sync_H_sug sync_H_rem
+           sync_H_err (sync0 tbl mx) its pre i post (sync0_inv tbl mx Ht) E).
+Qed.
